@@ -18,6 +18,7 @@ cd $W && git checkout -q -- . && git clean -fdq && git checkout -q --detach main
 if ! git apply --check $PATCH 2>/dev/null; then echo "$name: PATCH DOES NOT APPLY to main"; exit 1; fi
 git apply $PATCH
 if ! go build ./... 2>/tmp/try_build.log; then echo "$name: BUILD FAILS"; git checkout -q -- .; exit 1; fi
+if [ -z "${TRY_SKIP_CONFIRM:-}" ]; then
 suite=$(go test -vet=off -count=1 ./... 2>&1 | grep -v "^ok\|no test files" | head -5)
 if [ -n "$suite" ]; then echo "$name: SUITE NOT GREEN: $suite"; else echo "$name: suite green with change"; fi
 demo=$(ls $D/*.go $D/*.go.txt 2>/dev/null | head -1)
@@ -29,6 +30,7 @@ without=$(go test -vet=off -count=1 -tags c01demo -run Test ./$TGT/ 2>&1 | tail 
 rm -f $W/$TGT/zz_seed_demo_test.go
 echo "$name: demo with change: $with | without: $without"
 git apply $PATCH
+fi
 for p in $PROPS; do
   out=$(cd /verif && VERIF_REPO=$W VERIF_TIER=$TIER ./vcheck $p --tier $TIER 2>&1)
   if echo "$out" | grep -q "^VIOLATION"; then echo "$name vs $p ($TIER): CAUGHT :: $(echo "$out" | grep -A1 '^VIOLATION' | sed -n 2p | cut -c1-200)"; 
